@@ -69,6 +69,10 @@ def check(ctx: Ctx) -> None:
     # table look uninitialised
     from .c20 import r8_work
     r8_work(ctx, "C10.R16")
+    from .c20 import r10_listing_exhaustive
+    r10_listing_exhaustive(ctx, "C10.R17")
+    from .c20 import r2 as c20_r2
+    ctx.shared(c20_r2, "C20.R2", "C10.R18", "a 403 on the pointer or its target is not 'stale pointer': recovery must not run on it")
 
 
 def _fold_digits(ctx: Ctx, f: FunctionInfo, e: ast.AST, at: int, depth: int = 0) -> Optional[str]:
